@@ -33,6 +33,8 @@ func init() {
 			Run: func(P *Program, R *Report) { sharedConstantsRule(P, R, "C19.j") }},
 		Rule{ID: "C19.i", Explain: "Group.Exp: a negative exponent is replaced by exponent + group order before use, and the table exponentiation is reached only after the exponent was tested below the group order.",
 			Run: func(P *Program, R *Report) { groupExpRule(P, R) }},
+		Rule{ID: "C19.l", Explain: "the helpers refuse what they are specified to refuse and nothing else: the rejecting branches of the key-loading call tree, which include ProbablySafePrime, are the tabled reasons (the obligations of C18.g, same rule) - a pre-check on the two low bits refuses the safe prime 5.",
+			Run: func(P *Program, R *Report) { sharedRule(P, R, "C18", "C18.g", "C19.l", nil) }},
 	)
 }
 
